@@ -210,7 +210,8 @@ class ProcessSuite(Suite):
         return None
 
     def shrink_candidates(self, ops):
-        return [ops[:k] + ops[k + 1:] for k in range(len(ops))] if len(ops) > 1 else []
+        from propcheck import list_cuts
+        return list_cuts(list(ops))
 
     def distribution(self, inputs, observeds):
         kinds = {}
